@@ -25,7 +25,18 @@ YO = {
     "good": "0x000: 30f40001000000000000 |   irmovq $256, %rsp\n0x00a: 00                   |   halt\n",
     "bad": "0x000: 30f4zz01000000000000 |   irmovq $256, %rsp\n",
     "empty": "",
+    # malformed in one field only: sign in the address or in a data byte, short line, non-ASCII, missing colon
+    "plusaddr": "0x+00: 00                   |   halt\n",
+    "plusbyte": "0x000: +0                   |   halt\n",
+    "minusaddr": "0x-00: 00                   |   halt\n",
+    "shortline": "0x000: 0\n",
+    "nonascii": "0x000: 0\u00e9                  |   halt\n",
+    "nocolon": "0x000  00                   |   halt\n",
+    "oddhex": "0x000: 000                  |   halt\n",
 }
+BAD_YO = ["bad", "empty", "plusaddr", "plusbyte", "minusaddr", "nonascii", "oddhex", "nocolon"]
+# a line without any '|' is listing text (labels, directives) and is skipped: this loads (an image without bytes)
+ODD_YO = ["shortline"]
 
 OPTS = [("-c", "check"), ("--check", "check"), ("-d", "debug"), ("-q", "quiet"), ("--quiet", "quiet"), ("-t", "testing"),
         ("-h", "help"), ("--help", "help"), ("--ungroup-debug-wires", "ungroup"), ("--trace-assignments", "trace"),
@@ -44,7 +55,7 @@ def prepare(workdir):
         open(os.path.join(workdir, n + ".hcl"), "w").write(t)
     os.makedirs(os.path.join(workdir, "dir.hcl"))
     for n, t in YO.items():
-        open(os.path.join(workdir, n + ".yo"), "w").write(t)
+        open(os.path.join(workdir, n + ".yo"), "w", encoding="utf-8").write(t)
     open(os.path.join(workdir, "image.txt"), "w").write(YO["good"])
     os.makedirs(os.path.join(workdir, "dir.yo"))
 
@@ -113,7 +124,7 @@ def generate(binary, seed, count, outfile, workdir):
             traw = rnd.choice(TIMEOUTS)
             if hcl == "ok_run" and traw in ("4294967295",):
                 hcl = "ok_halt"        # a non-halting program with a 2^32-1 budget would run for hours
-            yo = rnd.choice(["good", "good", "good", "bad", "empty", "missing", "image.txt", "dir"])
+            yo = rnd.choice(["good", "good", "good", "good", rnd.choice(BAD_YO), rnd.choice(BAD_YO), rnd.choice(ODD_YO), "missing", "image.txt", "dir"])
             nfree = rnd.choice([0, 1, 1, 2, 2, 2, 3, 3, 3, 4])
             free = []
             if nfree >= 1:
@@ -141,8 +152,8 @@ def generate(binary, seed, count, outfile, workdir):
                     opterr = True
                 canonical["quiet"] = True
             hclstate = {"rej": "rejected", "syn": "rejected", "missing": "unreadable", "dir": "unreadable"}.get(hcl, "accepted")
-            yostate = {"good": "loaded", "image.txt": "loaded", "bad": "unloadable", "empty": "unloadable", "missing": "unopenable",
-                       "dir": "unloadable"}[yo]
+            yostate = {"good": "loaded", "image.txt": "loaded", "shortline": "loaded", "missing": "unopenable",
+                       "dir": "unloadable"}.get(yo, "unloadable")
             run = "finished"
             cycles = "-"
             banner = "-"
@@ -156,6 +167,8 @@ def generate(binary, seed, count, outfile, workdir):
                         cycles, banner = stop, ban
                     else:
                         cycles, banner = timeout, "timedout"
+                    if banner == "error" and cycles == timeout:
+                        banner = "timedout"   # C06: halted if the last Stat is HLT, otherwise timed out when the budget is used up
                     if banner == "halted" and cycles == timeout:
                         cycles = "-"          # halted exactly at the timeout: the report has no 'Cycles run:' line (see C06)
             p = subprocess.run([binary] + args, cwd=workdir, stdin=subprocess.DEVNULL, stdout=subprocess.PIPE,
